@@ -442,6 +442,7 @@ pub fn run_op(c: &mut Case, idx: usize, toks: &[&str]) -> String {
             c.shared.lock().unwrap().fault = Some((id.parse().unwrap(), k.parse().unwrap()));
             "ok:unit".to_string()
         }
+        ["xclose", _r] => "ok:unit".to_string(),
         ["setiofault", mode] => {
             c.shared.lock().unwrap().io_fault = match *mode {
                 "r" => 1,
